@@ -318,7 +318,13 @@ def close_codes(col, server, fbd, stride, offset):
 
 VIOLATIONS = ["rsv", "reserved-data-op", "reserved-ctl-op", "fragmented-control", "control>125", "continuation-without-start", "new-data-inside-message",
               "non-minimal-126", "non-minimal-127", "len>=2^63", "wrong-mask", "close-1-byte", "close-bad-code", "close-bad-utf8", "text-overlong",
-              "text-surrogate", "text->10ffff", "text-truncated-at-end", "text-bad-in-2nd-fragment", "rsv1-control", "rsv1-continuation"]
+              "text-surrogate", "text->10ffff", "text-truncated-at-end", "text-bad-in-2nd-fragment", "rsv1-control", "rsv1-continuation",
+              "text-generated", "text-generated", "text-generated"]
+# ways to spoil a valid UTF-8 text (RFC 3629): (name, octets appended after a valid prefix, may valid text follow?)
+BAD_TEXT = [("trunc2", b"\xc3", False), ("trunc3a", b"\xe2", False), ("trunc3b", b"\xe2\x82", False), ("trunc4a", b"\xf0", False), ("trunc4b", b"\xf0\x9f", False),
+            ("trunc4c", b"\xf0\x9f\x98", False), ("lone-continuation", b"\x80", True), ("bad-continuation", b"\xe2\x28", True), ("overlong2", b"\xc0\xaf", True),
+            ("overlong3", b"\xe0\x80\xaf", True), ("overlong4", b"\xf0\x80\x80\xaf", True), ("surrogate", b"\xed\xa0\x80", True), ("surrogate-hi", b"\xed\xbf\xbf", True),
+            (">10ffff", b"\xf4\x90\x80\x80", True), ("f5", b"\xf5\x80\x80\x80", True), ("fe", b"\xfe", True), ("ff", b"\xff", True), ("c1", b"\xc1\xbf", True)]
 BAD_CODES = [0, 999, 1004, 1005, 1006, 1015, 1016, 2999, 5000, 65535]
 
 
@@ -346,7 +352,12 @@ def seq_strategy():
         close = draw(st.one_of(st.none(), st.tuples(st.sampled_from([None, 1000, 1001, 3000, 4999]), st.text(max_size=20))))
         return {"server": draw(st.booleans()), "fbd": draw(st.booleans()), "comp": draw(st.booleans()), "items": items, "vio": vio, "vpos": vpos, "tail": tail,
                 "close": close, "code": draw(st.sampled_from(BAD_CODES)), "splits": draw(st.lists(st.integers(1, 80), max_size=12)),
-                "utf8": draw(st.booleans())}
+                "utf8": draw(st.booleans()),
+                "tv": {"bad": draw(st.integers(0, len(BAD_TEXT) - 1)), "pre": draw(st.one_of(st.integers(0, 30), st.sampled_from([124, 125, 126, 65534, 65536]))),
+                       "suf": draw(st.integers(0, 12)), "salt": draw(st.integers(0, 99)),
+                       # cut points as fractions of the message; equal cut points give empty fragments, 1000 = an empty final fragment
+                       "cuts": draw(st.lists(st.sampled_from([0, 1, 250, 500, 900, 990, 999, 1000, 1000]), max_size=4)),
+                       "edge": draw(st.lists(st.integers(-4, 0), max_size=2)), "ctl": draw(st.booleans())}}
     return case()
 
 
@@ -418,6 +429,21 @@ def build_frames(c):
     elif v == "text-bad-in-2nd-fragment":
         add(1, b"\xe2\x82", fin=False)
         add(0, b"\x28rest")
+    elif v == "text-generated":
+        tv = c["tv"]
+        name, bad, follow = BAD_TEXT[tv["bad"]]
+        payload = utf8_text(tv["pre"], tv["salt"]) + bad + (utf8_text(tv["suf"], tv["salt"] + 1) if follow else b"")
+        badpos = tv["pre"] + len(bad)
+        cuts = sorted(set(min(len(payload), len(payload) * f // 1000) for f in tv["cuts"] if f < 1000) | set(max(0, min(len(payload), badpos + e)) for e in tv["edge"]))
+        cuts = [x for x in cuts] + ([len(payload)] if 1000 in tv["cuts"] else [])
+        parts, pos = [], 0
+        for cpos in cuts + [len(payload)]:
+            parts.append(payload[pos:cpos])
+            pos = cpos
+        for k, part in enumerate(parts):
+            if tv["ctl"] and k == len(parts) - 1 and k > 0:
+                add(9, b"mid")
+            add(1 if k == 0 else 0, part, fin=(k == len(parts) - 1))
     elif v == "rsv1-control":
         add(9, b"p", rsv=4)
     elif v == "rsv1-continuation":
@@ -509,7 +535,9 @@ def sequences(col, seed, n):
         ctl_inside = any(f["op"] >= 8 for i, f in enumerate(frames) if 0 < i < len(frames) - 1 and not frames[i - 1]["fin"] and frames[i - 1]["op"] < 8)
         nt = c["vio"] is not None or (len(frames) >= 3 and ctl_inside)
         col.case(nt, dig=c, cls=["seq/" + ("violation:" + c["vio"] if c["vio"] else "valid"), "seq/%s" % ("server" if c["server"] else "client"),
-                                 "seq/failByDrop=%s" % c["fbd"]] + (["seq/control-inside-fragmented"] if ctl_inside else []),
+                                 "seq/failByDrop=%s" % c["fbd"]] + (["seq/control-inside-fragmented"] if ctl_inside else [])
+                 + (["seq/bad-text/" + BAD_TEXT[c["tv"]["bad"]][0]] if c["vio"] == "text-generated" else [])
+                 + (["seq/empty-final-fragment"] if any(f["op"] == 0 and f["fin"] and not f["payload"] for f in frames) else []),
                  sample={"role": "server" if c["server"] else "client", "fbd": c["fbd"], "comp": c["comp"], "vio": c["vio"], "nframes": len(frames),
                          "frames": [(f["op"], f["fin"], len(f["payload"])) for f in frames[:10]], "verdict": model.verdict})
     run_hypothesis(col, "seq", seq_strategy(), body, n, seed)
